@@ -3,6 +3,7 @@ package main
 import (
 	"bytes"
 	"fmt"
+	"strings"
 
 	"github.com/theQRL/go-qrllib/common"
 	"github.com/theQRL/go-qrllib/dilithium"
@@ -335,6 +336,9 @@ func c09Wallets(j *rt.Job, rng *rt.Rand, r *rt.Rec) {
 	}
 	var xs []xw
 	var ds []dw
+	if j.Int("_seed")%2 == 0 || rng.Bool() {
+		c09Foreign(rng, r, "")
+	}
 	shared := rng.Seed48() // one seed used under several hash functions and heights
 	n := j.Int("n")
 	for i := 0; i < n; i++ {
@@ -349,6 +353,9 @@ func c09Wallets(j *rt.Job, rng *rt.Rand, r *rt.Rec) {
 		sg, _ := d.Sign([]byte("wallet"))
 		ds = append(ds, dw{d.GetSeed(), d.GetPK(), d.GetAddress(), d.GetMnemonic(), d.GetHexSeed(), sg})
 	}
+	// between export and recovery the process handles foreign material: descriptors of every kind pass through
+	// the validators and derivation functions, and a few mistyped phrases are refused by the decoders
+	c09Foreign(rng, r, xs[0].id.mnem)
 	// phase 2
 	order := make([]int, n)
 	for i := range order {
@@ -388,6 +395,7 @@ func c09Wallets(j *rt.Job, rng *rt.Rand, r *rt.Rec) {
 			r.Count("session_xmss_recoveries_"+route, 1)
 			r.Distinct("session-x", w.c.Seed, w.c.H, w.c.HF, route)
 		}
+		c09Foreign(rng, r, w.id.mnem)
 		dwl := ds[i]
 		for _, route := range []string{"mnemonic", "hexseed"} {
 			r.Eval(1)
@@ -414,4 +422,37 @@ func c09Wallets(j *rt.Job, rng *rt.Rand, r *rt.Rec) {
 		}
 	}
 	r.Sample(map[string]interface{}{"session_wallets": n, "phases": "export all, then recover in shuffled order", "shared_seed_under_several_configs": true})
+}
+
+// c09Foreign: calls a wallet application makes between export and recovery — validating other people's
+// addresses (every descriptor value), deriving addresses from foreign public keys, and refusing mistyped
+// phrases. Outcomes are not judged here (C11/C14/C10 do that); the point is the history they create.
+func c09Foreign(rng *rt.Rand, r *rt.Rec, phrase string) {
+	for b0 := 0; b0 < 256; b0 += 1 + rng.Intn(2) {
+		for b1 := 0; b1 < 256; b1 += 1 + rng.Intn(12) {
+			var a [20]byte
+			copy(a[:], rng.Bytes(20))
+			a[0], a[1] = byte(b0), byte(b1)
+			xmss.IsValidXMSSAddress(a)
+			dilithium.IsValidDilithiumAddress(a)
+			if rng.Intn(16) == 0 {
+				var pk [67]byte
+				copy(pk[:], rng.Bytes(67))
+				pk[0], pk[1] = byte(b0), byte(b1)
+				rt.Call(func() { xmss.GetXMSSAddressFromPK(pk) })
+				rt.Call(func() { xmss.Verify([]byte("m"), make([]byte, 2180+32*2*int(b1&15)), pk) })
+			}
+		}
+	}
+	if phrase != "" {
+		w := strings.Split(phrase, " ")
+		for t := 0; t < 3; t++ {
+			c := append([]string(nil), w...)
+			c[1+rng.Intn(len(c)-1)] = "notaword"
+			o := rt.Call(func() { misc.MnemonicToExtendedSeedBin(strings.Join(c, " ")) })
+			rt.Call(func() { misc.MnemonicToSeedBin(strings.Join(c[:32], " ")) })
+			r.Count("foreign_refused_phrases_"+o.Kind, 1)
+		}
+	}
+	r.Count("foreign_material_phases", 1)
 }
